@@ -49,6 +49,11 @@ CLAIMED = {
         text="Unbounded theorems: the reshuffle's (first gid, count) ranges of non-empty groups are sorted by start, pairwise disjoint and inside the glyph set; CBDT strikes index maximal runs of consecutive gids with exactly one bitmap per glyph; offsets contiguous. The table constraints themselves (SVG document list, COLR base records strictly increasing with every glyph/layer/palette reference in range, CBLC strikes, hmtx/outlines/maxp/post/cmap agreement) are executable Coq predicates evaluated on an abstraction of every font built in all 13 formats (.ttf/.otf); each font is loaded with lazy=False, fully decompiled, re-saved, reloaded and compared table by table; SVG documents are checked for unique ids, in-document hrefs and no cross-glyph references; post format per flavour.",
         ref="DESIGN.md 8 C07",
     ),
+    "C08": dict(
+        technique="machine-checked proof in Coq (confluence of hermetic DAG execution for every dependency-respecting schedule; the source list is a function of the argument set) + graphs written by the real driver checked by the model's predicate + repeated real CLI builds under permuted arguments, hash seeds, parallelism and directories + strace of every step",
+        text="Unbounded theorems: for every hermetic tool semantics, every well-formed graph (unique outputs, acyclic) and every schedule that runs each edge once after the producers of its inputs, every file ends with the same content, and that content is a fixed point of its edge; config.load's source list depends only on the set of arguments. Tie: the build.ninja the real driver writes is parsed (fail-closed), topologically sorted and checked by the model's wf_graph inside Coq, every write_font edge must declare config/fea/glyphmap/part file; each build step is traced with strace and may only read files its edge transitively declares (the hermeticity hypothesis). End to end: real CLI builds of generated source sets in vector, OT-SVG and bitmap formats under reversed/shuffled/duplicated argv, up to ten PYTHONHASHSEEDs, ninja -j1/-j16, other cwd and build directory: font sha256 and all intermediates (except the parts files the property excludes) must coincide.",
+        ref="DESIGN.md 8 C08",
+    ),
     "C10": dict(
         technique="machine-checked proof in Coq (round-trip theorems for the csv dialect pair, the %04x codec and GlyphMapping rows, with refutation witnesses for the side conditions) + correspondence by vm_compute + field-coverage table from the source",
         text="Unbounded theorems: read_text(write_rows rs) = rs for all rows whose fields have no CR/LF and no unquoted leading space (both conditions shown necessary by machine-checked counter-examples = known finding F4); parse_hex(hex04 n) = n for every n; parse_row(csv_row g) = g for every GlyphMapping incl. the empty codepoint list. The csv model (a state machine) is tied to Python's csv module and to glyphmap.csv_line/load_from by evaluating it in Coq on random rows and arbitrary text. Config precedence and write/load symmetry are exercised for every FontConfig field x {neither,file,flag,both} with real absl flags; a table extracted from config.py's ast requires every field to be written, read, flagged and passed on. File-name recovery, glyph-name legality/distinctness (known finding F3), parts JSON and response files are checked on samples.",
